@@ -31,6 +31,8 @@ RULE = ('LLE: mixtures of 2-5 chemicals containing a partially miscible pair (wa
         'non-trivial = two non-empty liquid phases (LLE) / solute partly dissolved or a pure solute (SLE); distinct = hash of the case')
 MIN_NONTRIVIAL = {'quick': 150, 'thorough': 3000}
 ASSUMPTIONS = ['equal-activity bound: 1e-3 for every method, per component (relative to the larger of the two activities of that component; before round 6: relative to the largest activity of all); larger deviations of the Gibbs-minimising methods are classified by mechanism (component at the starting midpoint / Gibbs energy within 1e-6 of the polished minimum / beyond it) and reported under those keys', 'labels l/L are compared up to a swap when no top chemical is named',
+               'equal-activity, default method: a mismatch is filed under the recorded finding (coefficients never iterated) only when the returned split is, within 1e-5 of the feed, the flash at the method\'s documented starting guess as recomputed by the harness from the inputs (otherwise suffix /not-the-starting-guess-flash, unrecorded)',
+               'scale / history / call forms of the Gibbs-minimising methods: a difference is filed under the recorded trivial-solution findings when a compared result has two rows of one composition (1e-6 / 1e-4 in mole fraction) or when every compared result divides the pooled liquid at a Gibbs-energy change within the objective tolerance (1e-6 RT per mole of feed) with no mole fraction differing by more than 1e-2 between its rows',
                'no-split: a one-liquid result is reported only when the independent certificate lowers the Gibbs energy of mixing by more than 1e-4 RT per mole of feed (100 times the objective tolerance of the Gibbs-minimising methods); no certificate found = not shown unstable = held',
                'eutectic-model/activity-model: |x - eutectic(T, gamma_solute(x))| <= 1e-4 x + 2e-5 (the solubility iteration stops on a change of x below 1e-6)',
                'a probe (SLE._solve_x / SLE._update_solubility) that is not passed in a computed non-pure call, too few two-liquid results per LLE case or too many raises per shard make the run inconclusive (harness error), not violated']
@@ -280,10 +282,52 @@ def split_certificate(rec, th, z, T):
         return None
 
 
+def guess_flash(th, G, z, T):
+    """the recorded mechanism of the default method, modelled from the inputs alone: the flash of the feed z (mole fractions, zeros allowed) at the partition coefficients of the
+    method's documented starting guess (of the chemicals present, the heaviest by mass at 0.99 in one liquid and 1e-3 in the other, the second heaviest the other way round, the rest at
+    their feed fractions; K = gamma(second liquid) / gamma(first liquid)), phase fraction by the harness's own bisection.  A fresh solver whose partition coefficients are never
+    iterated returns exactly this state (600 of 600 generated cases agree to 1e-15 of the feed).  returns (l, L) per mole of feed up to the labels, or None (no root inside (0, 1))"""
+    m = z > 0
+    if m.sum() < 2: return None
+    zz = z[m]; order = np.argsort(zz * th.chemicals.MW[m]); a = order[-1]; b = order[-2]
+    x = zz.copy(); y = zz.copy(); x[a] = 0.99; y[a] = 1e-3; x[b] = 1e-3; y[b] = 0.99
+    x /= x.sum(); y /= y.sum()
+    X = np.zeros_like(z); Y = np.zeros_like(z); X[m] = x; Y[m] = y
+    K = np.where(m, G(Y.copy(), T) / G(X.copy(), T), 1.0)
+    if not np.isfinite(K).all(): return None
+    phi = rachford_rice(z, K)
+    if phi is None: return None
+    L = z / (1 + phi * (K - 1)) * (1 - phi)
+    return z - L, L
+
+
+def is_guess_flash(th, G, z, T, l, L, tol=1e-5):
+    """the returned split (l, L per mole of feed) is the flash at the starting-guess coefficients, up to the labels (tol: the library's phase-fraction solve stops on a bracket of 1e-6)"""
+    try:
+        with np.errstate(all='ignore'):
+            gf = guess_flash(th, G, z, T)
+    except (FloatingPointError, ZeroDivisionError): return False
+    if gf is None: return False
+    d = min(max(np.abs(gf[0] - l).max(), np.abs(gf[1] - L).max()), max(np.abs(gf[1] - l).max(), np.abs(gf[0] - L).max()))
+    return bool(d <= tol)
+
+
 def same_composition(r, tol):
     l, L = r['l'], r['L']
     if not (l.sum() > 0 and L.sum() > 0): return False
     return bool(np.abs(l / l.sum() - L / L.sum()).max() <= tol)
+
+
+def flat_objective(G, r, T, tol=1e-6, xtol=1e-2):
+    """the two rows are a homogeneous liquid divided at the resolution of the Gibbs-minimising methods: dividing the pooled material that way changes its Gibbs energy of mixing by no
+    more than the objective tolerance of those methods (f_tol = tol = 1e-6 RT per mole of feed, the quantity they minimise; computed here from the package's activity coefficients),
+    and no mole fraction differs by more than xtol between the rows (guard: a real second liquid that is merely small is not filed here)"""
+    l, L = r['l'], r['L']
+    if not same_composition(r, xtol): return False
+    F = l.sum() + L.sum()
+    with np.errstate(all='ignore'):
+        d = gibbs_mix(G, l / F, T) + gibbs_mix(G, L / F, T) - gibbs_mix(G, (l + L) / F, T)
+    return bool(abs(d) <= tol)
 
 
 def trivial(r):
@@ -291,11 +335,15 @@ def trivial(r):
     return same_composition(r, 1e-6)
 
 
-def trivial_class(*results):
+def trivial_class(*results, G=None, T=None):
     """key suffix for a difference that goes back to the trivial solution: '/trivial-solution' (mole fractions of the two rows equal within 1e-6, as before round 6) or
-    '/near-trivial-solution' (within 1e-4: the Gibbs-minimising methods stop on the objective, which is flat along the trivial ridge - all K within 1e-3 of 1)"""
+    '/near-trivial-solution' (within 1e-4: the Gibbs-minimising methods stop on the objective, which is flat along the trivial ridge - all K within 1e-3 of 1) or, for the
+    Gibbs-minimising methods only (G, T given; thorough run 11: 11 witnesses whose rows differ by 1.1e-4 .. 2.2e-3 in mole fraction, just past the 1e-4 above),
+    '/flat-objective-near-trivial-solution': EVERY one of the compared results is a homogeneous liquid divided at the resolution of the objective (flat_objective: Gibbs energy of mixing
+    within f_tol = 1e-6 RT per mole of feed of that of the pooled liquid; witnesses: 5e-9 .. 2.4e-8) - the mechanism itself, measured, instead of a wider composition bound"""
     if any(trivial(r) for r in results): return '/trivial-solution'
     if any(same_composition(r, 1e-4) for r in results): return '/near-trivial-solution'
+    if G is not None and all(flat_objective(G, r, T) for r in results): return '/flat-objective-near-trivial-solution'
     return ''
 
 
@@ -402,6 +450,11 @@ def run_lle(case, rec):
             if not (Gs - Gf <= 0.2): sfx += '/gibbs-above-feed>0.2'
             elif Gs > Gf + 1e-9: sfx += '/gibbs-above-feed'
             if not (Gs - Gref <= 0.5): sfx += '/gibbs-gap>0.5'
+            # the recorded mechanism itself, checked (thorough run 11): this call is that of a fresh solver, so a method whose coefficients are never iterated returns the flash at its
+            # documented starting guess - recomputed here from the inputs alone (guess_flash).  A mismatch of the activities on a result that is NOT that state is another mechanism:
+            # its key carries a suffix that no recorded entry lists
+            if is_guess_flash(th, G, flows / F, T, l / F, L / F): rec.hit('equal-activity:pseudo-equilibrium:starting-guess-flash')
+            else: sfx += '/not-the-starting-guess-flash'; rec.hit('equal-activity:pseudo-equilibrium:not-the-starting-guess-flash')
         rec.check(dev <= bound, 'equal-activity', mtag + sfx, f'lle({method}) at T={T}: activities of a chemical differ between the liquids by {dev:.3g} of its larger activity ({dev_all:.3g} of the largest activity of all) '
                   f'(l: {al.tolist()}, L: {aL.tolist()}; ids={ids})', residual=dev)
         # top chemical has a mass fraction in L at least as high as in l
@@ -419,7 +472,7 @@ def run_lle(case, rec):
             ok = np.allclose(rs['l'], k * l, rtol=0, atol=tol) and np.allclose(rs['L'], k * L, rtol=0, atol=tol)
             if not ok and free_labels(ids, flows, top):
                 ok = np.allclose(rs['L'], k * l, rtol=0, atol=tol) and np.allclose(rs['l'], k * L, rtol=0, atol=tol)
-            sfx = trivial_class(rs, {'l': l, 'L': L}) if not ok else ''
+            sfx = (trivial_class(rs, {'l': l, 'L': L}, G=G, T=T) if gibbs else trivial_class(rs, {'l': l, 'L': L})) if not ok else ''
             sdev = float(min(np.abs(rs['l'] - k * l).max(), np.abs(rs['L'] - k * l).max() if free_labels(ids, flows, top) else np.inf) / (F * k))
             if method == 'pseudo equilibrium' and not ok: sfx += '/dev' + size_class(sdev)
             rec.hit('scale:' + mtag)
@@ -498,7 +551,7 @@ def run_lle(case, rec):
         rec.hit('history:' + ctag)
         rec.hit('history:' + mtag)
         if decreased: rec.hit('history:T-decrease')
-        tsfx = trivial_class(rh, {'l': l, 'L': L}) if (not ok and method != 'pseudo equilibrium') else ''
+        tsfx = trivial_class(rh, {'l': l, 'L': L}, G=G, T=T) if (not ok and method != 'pseudo equilibrium') else ''
         # the default method (recorded finding: the result depends on the remembered coefficients): the size class of the difference goes into the key
         if not ok and method == 'pseudo equilibrium': tsfx += '/dev' + size_class(dev)
         # when the chemicals present differ from those of the previous call the solver forgets its coefficients: the call is that of a fresh solver (judged under its own clause)
@@ -704,7 +757,7 @@ def lle_forms(case, rec, th, ids, flows, T, method, top, l, L, F, mtag):
     """other ways of making the same call: the feed pre-split over l / L, P given, single_loop, update=False"""
     tol = {'pseudo equilibrium': 1e-7, 'shgo': 1e-5, 'differential evolution': 2e-2}[method] * F
     base = {'l': l, 'L': L}
-    def tsfx(r): return trivial_class(r, base) if method != 'pseudo equilibrium' else ''
+    def tsfx(r): return trivial_class(r, base, G=gamma_of(th), T=T) if method != 'pseudo equilibrium' else ''
     top_ = None if free_labels(ids, flows, top) else top
     if case.get('presplit'):
         r = rows(fresh_lle(th, ids, flows, T, method, top, presplit=case['presplit']))
